@@ -111,22 +111,21 @@ Proof.
   exact (supported_V T I c x2 x5 x6 x7 x8 x9 x10 x11 x12 x13 x14 x15 x16 x17 x18 x19 x20 x21 x0 x1 x3 x4 v' H).
 Qed.
 
-Lemma validate_supported_unaliased T I h s h' s' :
-  wf h s = true -> impl_unaliased s -> validate T I h s = (h', Ok s') ->
-  supported_only T I (view h' s') = true.
+Lemma validate_supported_heap T I h s h' s' :
+  wf h s = true -> validate T I h s = (h', Ok s') -> supported_only T I (view h' s') = true.
 Proof.
-  intros W U H. pose proof (validate_refines T I h s (conj W U)) as R. rewrite H in R. destruct R as [R1 [R2 _]].
+  intros W H. pose proof (validate_refines T I h s W) as R. rewrite H in R. destruct R as [R1 [R2 _]].
   unfold view. rewrite R2. eapply cvalidate_supported; [|exact R1].
   rewrite lists_length. apply (wf_length h s W).
 Qed.
 
 Lemma validate_refines_contents_lemma :
-  forall T I h s, wf h s = true -> impl_unaliased s ->
+  forall T I h s, wf h s = true ->
     match validate T I h s with
     | (h', Ok s') => cvalidate T I (lists h s) (sc s) = Ok (lists h' s') /\ sc s' = sc s
     | (h', Err e) => cvalidate T I (lists h s) (sc s) = Err e
     end.
 Proof.
-  intros T I h s W U. pose proof (validate_refines T I h s (conj W U)) as R.
+  intros T I h s W. pose proof (validate_refines T I h s W) as R.
   destruct (validate T I h s) as [h' [s'|e]]; [destruct R as [A [B _]]; auto|exact R].
 Qed.
